@@ -55,7 +55,7 @@ ExportJudge(e, c) ==
             ELSE IF e.conv # "ok" THEN {[kind |-> <<"fix", "convert-" \o e.conv>>, ks |-> {}, case |-> c]}
             ELSE {W("fix", x) : x \in Judge(B, o, e.back, "fix") \cup StableWits(B, o, e.stable)}
   IN [ws |-> mach \cup ret \cup ex \cup fx, built |-> built, next |-> after,
-      cls |-> AllCls(B, o) \cup OrderCls(B)]
+      cls |-> EveryCls(B, o)]
 
 TInit == l = 1 /\ cur = NewExp(DefaultOpts) /\ wit = {} /\ seen = {} /\ stat = [exports |-> 0, unbuilt |-> 0, deviating |-> 0, unbuiltcases |-> {}]
 
